@@ -60,7 +60,7 @@ CHECKS['C01'] = dict(engine='LEXZ3+CH', category='model_checking', design='4/C01
    note='Trusted: z3 regex theory, LEXZ3 translator (validated against re on every run), CrossHair str model (one mis-modelled strip() case was met; counterexamples are always replayed natively), reference readers. String-constant atoms are C07. The skeleton part is concrete execution over a bounded statement family, not a solver verdict. Non-ASCII letters are outside the LEXZ3 alphabet.')
 
 CHECKS['C09'] = dict(engine='CH', category='model_checking', design='4/C09',
-   technique='CrossHair (z3) path-splitting over qualifier spellings and catalog forms of a 26-skeleton statement family; leaves run the real parser+planner and a generic plan walker checks numbering and that every Result reference (fields, embedded queries, sub-steps) points strictly backwards',
+   technique='CrossHair (z3) path-splitting over qualifier spellings and catalog forms of a 26-skeleton statement family plus a generated join family (3 join kinds x 16 ON shapes x 7 WHERE shapes x 3 tails); leaves run the real parser+planner and a generic plan walker checks numbering and that every Result reference (fields, embedded queries, sub-steps) points strictly backwards',
    text='For every member of the statement family (joins of 2-3 tables, subqueries in WHERE/target/CASE operand/function argument, CTE, FROM-subquery, UNION, INSERT..SELECT, UPDATE..FROM, DELETE, CREATE TABLE AS, model joins with versions/projects/USING partition_size, time-series model, api and files databases) x every spelling of the qualifiers x catalog supplied as names or dicts x predictor metadata as list or legacy dict: planning returns a plan or raises PlanningException/NotImplementedError, never an internal error; steps are numbered consecutively; every reference to a step result - in fields, inside embedded queries and inside map-reduce sub-steps - points to a strictly earlier step.',
    note='Trusted: CrossHair path bookkeeping (structure inputs are finite-domain; leaves run natively), generic walker in harness/planlib.py. Shapes outside the family are outside the claim. Known finding: t JOIN model JOIN t2 USING partition_size (forward reference).')
 CHECKS['C10'] = dict(engine='CH', category='model_checking', design='4/C10',
@@ -69,18 +69,18 @@ CHECKS['C10'] = dict(engine='CH', category='model_checking', design='4/C10',
    note='Trusted: CrossHair path bookkeeping, expected-routing table per skeleton in harness/c0910lib.py. Spellings: all 2^3 case variants of int1/int2 and the first letter of mindsdb/proj.')
 
 CHECKS['C14'] = dict(engine='CH', category='model_checking', design='4/C14',
-   technique='CrossHair (z3) path-splitting over a symbolic WHERE formula (10 shapes x 8 atom kinds in 3 slots), ON/USING presence and join order; leaves run the real parser+planner; independent syntactic oracle',
-   text='For every table-model join of the family: exactly one apply-predictor step whose input is the fetched table; the model arguments are exactly the top-level `model.col = const` conjuncts of WHERE, which are not sent to the integration and are neutralised in the outer query, while non-top-level model conditions keep filtering; no table column becomes a model argument; every filter in the table fetch is a top-level conjunct on that table; USING options reach the model with lower-cased keys; ON equalities between model and table columns become the column mapping for both join orders.',
-   note='Trusted: CrossHair path bookkeeping; oracle in harness/c14lib.py written from the property text. One table x one model; deeper formulas and more tables are outside this check (C09/C10 cover their structure).')
+   technique='CrossHair (z3) path-splitting over a symbolic WHERE formula (10 shapes x 12 atom kinds in 3 slots), ON/USING presence and join order; leaves run the real parser+planner; z3 equivalence queries over one symbolic row (three-valued logic, LIKE/functions uninterpreted) decide whether a pushed filter is a written top-level conjunct and whether the outer filter is the written WHERE with consumed model arguments neutralised',
+   text='For every table-model join of the family: exactly one apply-predictor step whose input is the fetched table; the model arguments are exactly the top-level `model.col = const` conjuncts of WHERE, which are not sent to the integration and are neutralised in the outer query, while non-top-level model conditions keep filtering; no table column becomes a model argument; every filter in the table fetch is (proved equivalent to) a top-level conjunct on that table - also for constant-first comparisons and LIKE with swapped operands; the outer filter is equivalent to the written WHERE with the consumed model arguments replaced by TRUE; USING options reach the model with lower-cased keys; ON equalities between model and table columns become the column mapping for both join orders.',
+   note='Trusted: CrossHair path bookkeeping; oracle in harness/c14lib.py written from the property text; z3 (an `unknown` is inconclusive). One table x one model; deeper formulas and more tables are outside this check (C09/C10 cover their structure).')
 
 CHECKS['C17'] = dict(engine='CH', category='model_checking', design='4/C17',
-   technique='CrossHair (z3) path-splitting over a tree family (corpus + one sentence per production + unsupported shapes) x 7 dialect names, and over vocabularies of type names / operators / function names / arities; leaves run the real renderer natively',
+   technique='CrossHair (z3) path-splitting over a tree family (corpus + one sentence per production + unsupported shapes + 14 unsupported snippets x 17 statement frames) x 7 dialect names, and over vocabularies of type names / operators / function names / arities; leaves run the real renderer natively',
    text='For every tree of the family and every dialect name: get_string and get_exec_params with fallback never raise and return a str; with fallback disabled they return or raise only SQLAlchemyError/NotImplementedError; the tree prints and dumps identically before and after. The same contract holds for TypeCast/CREATE TABLE with every type name of the vocabulary (known, unknown, malformed), every binary/unary operator of the vocabulary (known, unknown, with tuple operands), function calls of arity 0..3 with DISTINCT / FROM-argument, and identifiers/aliases with 1..4 parts.',
    note='Trusted: CrossHair path bookkeeping; SQLAlchemy. Finite-domain choices only: symbolic strings through SQLAlchemy were measured to be out of reach for CrossHair (about 3 s solver time per path). Trees outside the family / names outside the vocabularies are outside the claim.')
 
 CHECKS['C20'] = dict(engine='SYMTOK+CH', category='other', design='4/C20',
-   technique='symbolic token streams (SYMTOK, z3-decided) re-explored after predecessor calls of every class through the real get_lexer_parser; structural fingerprint of all library-global state around call batteries; CrossHair path-splitting over pairs of statements planned on shared vs fresh catalog objects',
-   text='NARROWED SCOPE (stated): this technique decides call histories and shared-state mutation, not thread schedules or hash seeds. (a) For every predecessor class (accepting, lexer error, parser error in two dialects, planner error, plan+render) and every token stream of <= K tokens of each dialect, parse_sql gives the same tree / message as without the predecessor. (b) A structural fingerprint of every module-level and class-level object of mindsdb_sql and sly (tables, grammars, lexer classes, reserved words, ...) is unchanged by a battery of parse/plan/render calls including failing ones. (c) For every ordered pair of family statements and catalog form, planning the second on catalog objects already used for the first equals planning it on fresh objects. Under the stated assumption that no call temporarily mutates and restores shared objects, (b) implies concurrent calls do not interfere.',
+   technique='symbolic token streams (SYMTOK, z3-decided) re-explored after predecessor calls of every class through the real get_lexer_parser; structural fingerprint of all library-global state around call batteries; CrossHair path-splitting over pairs of statements planned on shared vs fresh catalog objects; render history in a fresh interpreter (concrete)',
+   text='NARROWED SCOPE (stated): this technique decides call histories and shared-state mutation, not thread schedules or hash seeds. (a) For every predecessor class (accepting, lexer error, parser error in two dialects, planner error, plan+render) and every token stream of <= K tokens of each dialect, parse_sql gives the same tree / message as without the predecessor. (b) A structural fingerprint of every module-level and class-level object of mindsdb_sql and sly (tables, grammars, lexer classes, reserved words, ...) is unchanged by a battery of parse/plan/render calls including failing ones. (c) For every ordered pair of family statements and catalog form, planning the second on catalog objects already used for the first equals planning it on fresh objects. (d) Rendering a statement family with renderers built from dialect names and from SQLAlchemy dialect classes gives the same text before and after every other renderer and the battery were used (fresh interpreter; concrete, stated as such). Under the stated assumption that no call temporarily mutates and restores shared objects, (b) implies concurrent calls do not interfere.',
    note='NOT claimed: real thread interleavings (neither CrossHair nor our executors model CPython scheduling) and PYTHONHASHSEED independence (a two-seed re-run of the planner family is recorded in the evidence as a sample, not a verdict). K<=2 quick / 3 thorough.')
 
 CHECKS['C15'] = dict(engine='SYMREL', category='translation_validation', design='4/C15',
